@@ -229,6 +229,15 @@ func c02Func(i int, s fnSpec, specs []fnSpec) Stmt {
 			if k+1 < len(all) && k%2 == 0 {
 				body = append(body, Assign{Names: []string{v, all[k+1]}, Vals: []Expr{Binary{Op: "+", L: Var{all[k+1]}, R: lit(1)}, lit(50 + i)}})
 			}
+		case "redefine":
+			// 'g, fresh := ...' inside the function: like in Go, := with one new name defines a NEW local g
+			// that shadows the global from here on; the global itself must stay untouched
+			if v == "g" {
+				fresh := fmt.Sprintf("nw%d", i+1)
+				body = append(body, Define{Names: []string{"g", fresh}, Form: DefShort, Vals: []Expr{Binary{Op: "+", L: Var{"g"}, R: lit(50)}, lit(60 + i)}},
+					OpAssign{Name: "g", Op: "+", Val: lit(1)}, IncDec{Name: "g", Inc: true},
+					Print{Args: []Expr{StrLit{V: name + ":shadow"}, Var{"g"}, Var{fresh}}})
+			}
 		}
 	}
 	body = append(body, showAll("out"))
@@ -252,11 +261,11 @@ func c02Func(i int, s fnSpec, specs []fnSpec) Stmt {
 func c02Specs(idx int, prev []fnSpec, full bool) []fnSpec {
 	paramSets := [][]string{{}, {"x"}, {"x", "y"}, {"y", "x"}}
 	nrets := []int{0, 1, 2}
-	writes := []string{"=", "++", "swap", "multi"}
+	writes := []string{"=", "++", "swap", "multi", "redefine"}
 	if full {
 		paramSets = [][]string{{}, {"x"}, {"y"}, {"x", "y"}, {"y", "x"}}
 		nrets = []int{0, 1, 2, 3}
-		writes = []string{"=", "+=", "++", "swap", "multi"}
+		writes = []string{"=", "+=", "++", "swap", "multi", "redefine"}
 	}
 	var out []fnSpec
 	for _, ps := range paramSets {
